@@ -1,1 +1,183 @@
-(* placeholder *)
+(* Lemmas about Base.v and Values.v: boolean equalities decide equality; list-as-set operations. *)
+From Coq Require Import List Bool NArith ZArith Arith Lia Permutation.
+From Coq.Strings Require Import Byte.
+From BWExec Require Import Base Values.
+Import ListNotations.
+
+Lemma byte_eqb_spec : forall a b : byte, Byte.eqb a b = true <-> a = b.
+Proof.
+  intros a b. split.
+  - apply Byte.byte_dec_bl.
+  - apply Byte.byte_dec_lb.
+Qed.
+
+Lemma str_eqb_spec : forall a b, str_eqb a b = true <-> a = b.
+Proof.
+  induction a as [|x a IH]; destruct b as [|y b]; cbn; split; intro H; try reflexivity; try discriminate.
+  - apply andb_true_iff in H. destruct H as [H1 H2]. apply byte_eqb_spec in H1. apply IH in H2. congruence.
+  - inversion H; subst. apply andb_true_iff. split; [apply byte_eqb_spec; reflexivity | apply IH; reflexivity].
+Qed.
+
+Lemma str_eqb_refl : forall a, str_eqb a a = true.
+Proof. intro a. apply str_eqb_spec. reflexivity. Qed.
+
+Lemma str_eqb_neq : forall a b, str_eqb a b = false <-> a <> b.
+Proof.
+  intros a b. split; intro H.
+  - intro E. apply str_eqb_spec in E. congruence.
+  - destruct (str_eqb a b) eqn:E; [apply str_eqb_spec in E; contradiction | reflexivity].
+Qed.
+
+Lemma str_eqb_sym : forall a b, str_eqb a b = str_eqb b a.
+Proof.
+  intros a b. destruct (str_eqb a b) eqn:E.
+  - apply str_eqb_spec in E. subst. symmetry. apply str_eqb_refl.
+  - symmetry. apply str_eqb_neq. apply str_eqb_neq in E. congruence.
+Qed.
+
+Definition eqb_ok {A : Type} (eqb : A -> A -> bool) : Prop := forall a b, eqb a b = true <-> a = b.
+
+Lemma str_eqb_ok : eqb_ok str_eqb.
+Proof. exact str_eqb_spec. Qed.
+
+Lemma N_eqb_ok : eqb_ok N.eqb.
+Proof. exact N.eqb_eq. Qed.
+
+Lemma option_eqb_ok : forall {A} (eqb : A -> A -> bool), eqb_ok eqb -> eqb_ok (option_eqb eqb).
+Proof.
+  intros A eqb H [a|] [b|]; cbn; split; intro E; try reflexivity; try discriminate.
+  - apply H in E. congruence.
+  - inversion E; subst. apply H. reflexivity.
+Qed.
+
+Lemma node_eqb_ok : eqb_ok node_eqb.
+Proof.
+  intros [t i|k] [t' i'|k']; cbn; split; intro E; try discriminate.
+  - apply andb_true_iff in E. destruct E as [E1 E2]. apply str_eqb_spec in E1, E2. congruence.
+  - inversion E; subst. rewrite !str_eqb_refl. reflexivity.
+  - apply N.eqb_eq in E. congruence.
+  - inversion E; subst. apply N.eqb_refl.
+Qed.
+
+Lemma pred_eqb_ok : eqb_ok pred_eqb.
+Proof.
+  intros [i a] [i' a']. unfold pred_eqb. cbn. split; intro E.
+  - apply andb_true_iff in E. destruct E as [E1 E2]. apply str_eqb_spec in E1.
+    apply (option_eqb_ok Z.eqb Z.eqb_eq) in E2. congruence.
+  - inversion E; subst. rewrite str_eqb_refl. cbn. apply (option_eqb_ok Z.eqb Z.eqb_eq). reflexivity.
+Qed.
+
+Lemma obj_eqb_ok : eqb_ok obj_eqb.
+Proof.
+  intros [n|p|l] [n'|p'|l']; cbn; split; intro E; try discriminate.
+  - apply node_eqb_ok in E. congruence.
+  - inversion E; subst. apply node_eqb_ok. reflexivity.
+  - apply pred_eqb_ok in E. congruence.
+  - inversion E; subst. apply pred_eqb_ok. reflexivity.
+  - apply str_eqb_spec in E. congruence.
+  - inversion E; subst. apply str_eqb_refl.
+Qed.
+
+Lemma triple_eqb_ok : eqb_ok triple_eqb.
+Proof.
+  intros [[s p] o] [[s' p'] o']. cbn. split; intro E.
+  - apply andb_true_iff in E. destruct E as [E E3]. apply andb_true_iff in E. destruct E as [E1 E2].
+    apply node_eqb_ok in E1. apply pred_eqb_ok in E2. apply obj_eqb_ok in E3. congruence.
+  - inversion E; subst. apply andb_true_iff. split; [apply andb_true_iff; split|].
+    + apply node_eqb_ok. reflexivity.
+    + apply pred_eqb_ok. reflexivity.
+    + apply obj_eqb_ok. reflexivity.
+Qed.
+
+Section SetLemmas.
+  Context {A : Type} (eqb : A -> A -> bool) (Heqb : eqb_ok eqb).
+
+  Lemma mem_In : forall x l, mem eqb x l = true <-> In x l.
+  Proof.
+    intros x l. induction l as [|y r IH]; cbn.
+    - split; [discriminate | tauto].
+    - rewrite orb_true_iff, IH. split; intros [H|H]; auto.
+      + apply Heqb in H. auto.
+      + left. apply Heqb. auto.
+  Qed.
+
+  Lemma mem_false : forall x l, mem eqb x l = false <-> ~ In x l.
+  Proof.
+    intros x l. rewrite <- mem_In. destruct (mem eqb x l).
+    - split; [discriminate | intro H; exfalso; apply H; reflexivity].
+    - split; [intros _ H; discriminate | reflexivity].
+  Qed.
+
+  Lemma set_add_In : forall l x y, In y (set_add eqb l x) <-> In y l \/ y = x.
+  Proof.
+    intros l x y. unfold set_add. destruct (mem eqb x l) eqn:E.
+    - apply mem_In in E. split; [auto | intros [H|H]; subst; auto].
+    - rewrite in_app_iff. cbn. split; intros [H|H]; auto.
+      + destruct H as [H|[]]. auto.
+  Qed.
+
+  Lemma set_add_all_In : forall xs l y, In y (set_add_all eqb xs l) <-> In y l \/ In y xs.
+  Proof.
+    induction xs as [|x xs IH]; intros l y; cbn.
+    - tauto.
+    - unfold set_add_all in *. cbn. rewrite IH, set_add_In. split; intros H; intuition (subst; auto).
+  Qed.
+
+  Lemma set_remove_all_In : forall xs l y, In y (set_remove_all eqb xs l) <-> In y l /\ ~ In y xs.
+  Proof.
+    intros xs l y. unfold set_remove_all. rewrite filter_In, negb_true_iff, mem_false. tauto.
+  Qed.
+
+  Lemma NoDup_snoc : forall (l : list A) x, NoDup l -> ~ In x l -> NoDup (l ++ [x]).
+  Proof.
+    induction l as [|y r IH]; intros x Hnd Hx; cbn.
+    - constructor; [tauto | constructor].
+    - inversion Hnd; subst. constructor.
+      + rewrite in_app_iff. cbn. intros [H|[H|[]]]; [contradiction | subst; apply Hx; left; reflexivity].
+      + apply IH; [assumption | intro H; apply Hx; right; exact H].
+  Qed.
+
+  Lemma set_add_NoDup : forall l x, NoDup l -> NoDup (set_add eqb l x).
+  Proof.
+    intros l x H. unfold set_add. destruct (mem eqb x l) eqn:E; [exact H|].
+    apply mem_false in E. apply NoDup_snoc; assumption.
+  Qed.
+
+  Lemma set_add_all_NoDup : forall xs l, NoDup l -> NoDup (set_add_all eqb xs l).
+  Proof.
+    induction xs as [|x xs IH]; intros l H; cbn; [exact H|].
+    unfold set_add_all in *. cbn. apply IH. apply set_add_NoDup. exact H.
+  Qed.
+
+  Lemma filter_NoDup : forall (f : A -> bool) l, NoDup l -> NoDup (filter f l).
+  Proof.
+    intros f l H. induction H as [|x l Hx Hnd IH]; cbn; [constructor|].
+    destruct (f x); [constructor; [rewrite filter_In; tauto | exact IH] | exact IH].
+  Qed.
+
+  Lemma set_remove_all_NoDup : forall xs l, NoDup l -> NoDup (set_remove_all eqb xs l).
+  Proof. intros xs l H. apply filter_NoDup. exact H. Qed.
+
+  Lemma nodup_b_spec : forall l, nodup_b eqb l = true <-> NoDup l.
+  Proof.
+    induction l as [|x r IH]; cbn.
+    - split; [constructor | reflexivity].
+    - rewrite andb_true_iff, negb_true_iff, mem_false, IH. split.
+      + intros [H1 H2]. constructor; assumption.
+      + intro H. inversion H; subst. tauto.
+  Qed.
+
+  Lemma subset_spec : forall a b, subset eqb a b = true <-> (forall x, In x a -> In x b).
+  Proof.
+    intros a b. unfold subset. rewrite forallb_forall. split; intros H x Hx.
+    - apply mem_In. apply H. exact Hx.
+    - apply mem_In. apply H. exact Hx.
+  Qed.
+
+  Lemma set_eqb_spec : forall a b, set_eqb eqb a b = true <-> (forall x, In x a <-> In x b).
+  Proof.
+    intros a b. unfold set_eqb. rewrite andb_true_iff, !subset_spec. split.
+    - intros [H1 H2] x. split; auto.
+    - intro H. split; intros x Hx; apply H; exact Hx.
+  Qed.
+End SetLemmas.
